@@ -354,6 +354,7 @@ class GridSearcher(StochasticSearcher):
             super().get_state(),
             next_index=self._next_index,
             all_initial_configs=self._all_initial_configs.get_state(),
+            hp_values_combinations=list(self.hp_values_combinations),
         )
         return state
 
@@ -363,6 +364,7 @@ class GridSearcher(StochasticSearcher):
             num_samples=self.num_samples,
             metric=self._metric,
             shuffle_config=self._shuffle_config,
+            allow_duplicates=self._allow_duplicates,
         )
         new_searcher._restore_from_state(state)
         return new_searcher
@@ -370,6 +372,8 @@ class GridSearcher(StochasticSearcher):
     def _restore_from_state(self, state: Dict[str, Any]):
         super()._restore_from_state(state)
         self._next_index = state["next_index"]
+        # The grid has to be traversed in the order of the original searcher
+        self.hp_values_combinations = list(state["hp_values_combinations"])
         self._all_initial_configs = ExclusionList(self._hp_ranges)
         self._all_initial_configs.clone_from_state(state["all_initial_configs"])
 
